@@ -46,6 +46,20 @@ Definition ctx_cell (c : cctx) (k : string) : option loc :=
            end in
   env_cell e k.
 
+(** eval.c:105-119 sexp_env_cell_loc when the closed form is ITSELF an identifier: the key is the closure
+    (environment E, free names, symbol k), looked up in context c (the place in the macro template
+    where the closure stands).  The closure object is eq? to no key of any frame; then, unless k is a
+    free name of an enclosing closure (pairp(ls)) or of this closure, the lookup moves to E (the
+    original frames, not copies); if nothing is found at compile time, vm.c:1527-1537 GLOBAL_REF looks
+    k up in E once more at run time (sexp_env_cell with the run-time context: no fv list) *)
+Definition ident_cell (c : cctx) (E : env) (free : list string) (k : string) : option loc :=
+  let compile_time :=
+    match fv_memq k (c_fv c) with
+    | Some ls => env_cell (match first_env ls with Some e' => e' | None => c_env c end) k
+    | None => if existsb (String.eqb k) free then env_cell (c_env c) k else env_cell E k
+    end in
+  match compile_time with Some cell => Some cell | None => env_cell E k end.
+
 (** eval.c:242-248, one iteration of the copy loop: a fresh env object (immutable flag 0) that SHARES
     the bindings list and the renames list of the frame it copies (syntactic_p = 1 matters to
     define only, which is outside this model) *)
